@@ -294,7 +294,13 @@ def check_property(prop, tier, seed, keep=False, verbose=False):
                 fn_table.append({"unit": un, "function": k, "file": info["file"], "lines": info["lines"],
                                  "sha256": info["sha256"], "obligations": tot, "by_kind": kinds,
                                  "failed": [f["id"] for f in myfail]})
+            for k, notes in ur.gen.shape_changed.items():
+                print("note: %s/%s: %s" % (un, k, "; ".join(notes)))
             for f in ur.failures:
+                if f["fn"] in ur.gen.shape_changed and f["kind"].startswith(("invariant", "loop_ensures", "termination")):
+                    undecided.append("%s: %s failed after the loop structure of %s changed (%s): contract table needs updating" % (
+                        un, f["id"], f["fn"], "; ".join(ur.gen.shape_changed[f["fn"]])))
+                    continue
                 ps = props_of_failure(unit, ur, f)
                 if prop in ps:
                     failed_obl += 1
